@@ -316,7 +316,7 @@ def c2m_runs(c2m, src, d, use_ext, engines=ENGINES):
     res = {}
     lib = ['-L' + d, '-lc07ext'] if use_ext else []
     for e in engines:
-        rc, out, err = vlib.sh([c2m, '-w', src] + lib + list(e), timeout=120, cwd=d)
+        rc, out, err = vlib.sh([c2m, '-w', src] + lib + list(e), timeout=20, cwd=d)
         res[ename(e)] = (rc, out, err[-300:])
     return res
 
@@ -409,9 +409,12 @@ def run(chk):
         c2m, model = tools(d)
         n1, bad_types = part_types(chk, c2m, model, d)
         n2, bad_values, model_breaks = part_values(chk, c2m, model, d, quick)
+        n3, bad_progs = part_programs(chk, c2m, d, quick)
     chk.cov['rule'] = ('A1: _Generic type id of every operator on all 15x15 arithmetic type pairs and of typed integer constants; '
                        'A2: each UB-free typed operator application is evaluated in 3 constant contexts and 2 run-time forms under '
-                       '7 c2m engine configurations and gcc (evaluations = cases x 5 x 8); every case is non-trivial; distinct by case')
+                       '7 c2m engine configurations and gcc (evaluations = cases x 5 x 8); every case is non-trivial; distinct by case; '
+                       'B: seeded UB-free programs (validated by gcc -fsanitize=undefined and -O0/-O1/-O2 agreement), stdout + exit status '
+                       'under the 7 engine configurations vs gcc')
     tie_broken = bool(lim) or not r['ok'] or bool(model_breaks)
     if tie_broken and not chk.violations:
         r = dict(r)
